@@ -27,6 +27,7 @@ FIXED = [
     ("C05", "ffe2063", "without a WHERE clause `order by size + 1 desc` was lexed as the keys `size`, `+`, column 1 and sorted ascending (arithmetic operators were only recognised after WHERE)", ["expr-desc-no-where"]),
     ("C05", "c52c9af", "`order by modified` panicked when the current date is 29 February (fallback date built from today's date with year 1970)", ["date-key-on-feb-29"]),
     ("C06", "b34b410", "with `archives`, ORDER BY and LIMIT N the archive member loop stopped after N rows had been seen: `order by size desc limit 1` returned the archive instead of its larger member", ["archive-top1-by-size"]),
+    ("C07", "795173b", "AVG used integer division (sizes 1,2,4,6 -> 3 instead of 3.25) and VAR_*/STDDEV_* were computed around that truncated mean", ["fractional-mean"]),
 ]
 
 OPEN = [
